@@ -536,7 +536,23 @@ func (w *_node) AsString() (string, error) {
 		// user has registered a converter that takes the underlying type and returns a string
 		return customConverter.customToString(ptrVal(w.val).Interface())
 	}
-	return nonPtrVal(w.val).String(), nil
+	val := nonPtrVal(w.val)
+	if enum, ok := w.schemaType.(*schema.TypeEnum); ok && (kindInt[val.Kind()] || kindUint[val.Kind()]) {
+		// a Go integer holds the member's number (int representation); at type level the node is the member's name
+		i, err := (*_nodeRepr)(w).AsInt()
+		if err != nil {
+			return "", err
+		}
+		if stg, ok := enum.RepresentationStrategy().(schema.EnumRepresentation_Int); ok {
+			for _, member := range enum.Members() {
+				if n, ok := stg[member]; ok && int64(n) == i {
+					return member, nil
+				}
+			}
+		}
+		return "", fmt.Errorf("AsString: %d is not a valid member of enum %s", i, enum.Name())
+	}
+	return val.String(), nil
 }
 
 func (w *_node) AsBytes() ([]byte, error) {
@@ -1025,6 +1041,12 @@ func (w *_assembler) AssignString(s string) error {
 		}
 		if !known {
 			return fmt.Errorf("AssignString: %q is not a valid member of enum %s", s, enum.Name())
+		}
+		if stg, ok := enum.RepresentationStrategy().(schema.EnumRepresentation_Int); ok {
+			if k := nonPtrType(w.val).Kind(); kindInt[k] || kindUint[k] {
+				// a Go integer holds the member's number, not its name
+				return (*_assemblerRepr)(w).AssignInt(int64(stg[s]))
+			}
 		}
 	}
 	customConverter := w.cfg.converterFor(w.schemaType.Name(), w.val)
